@@ -194,8 +194,8 @@ impl<'a> SlotView<'a> {
         let (hot, len) = self.look(k);
         let entry = if hot { "storage_read_hot" } else { "storage_read_cold" };
         let units = len.unwrap_or(0) as u64;
-        let c = dep_cost(self.costs, entry).and_then(|d| dep_total(&d, units));
-        sp.push(format!("{entry}({units})"), c);
+        let d = dep_cost(self.costs, entry);
+        sp.push(format!("{entry}[{}]({units})", d.as_ref().map(dep_str).unwrap_or_else(|| "undefined".into())), d.and_then(|d| dep_total(&d, units)));
         self.hot.insert(*k, len);
         len
     }
@@ -204,15 +204,16 @@ impl<'a> SlotView<'a> {
     fn write(&mut self, sp: &mut Spec, k: &SlotKey, new_len: u64) {
         let (_, old) = self.look(k);
         let old = old.unwrap_or(0) as u64;
-        let c = dep_cost(self.costs, "storage_write").and_then(|d| dep_total(&d, new_len));
-        if !sp.push(format!("storage_write({new_len})"), c) { return; }
+        let d = dep_cost(self.costs, "storage_write");
+        if !sp.push(format!("storage_write[{}]({new_len})", d.as_ref().map(dep_str).unwrap_or_else(|| "undefined".into())), d.and_then(|d| dep_total(&d, new_len))) { return; }
         let grow = new_len.saturating_sub(old);
-        sp.push(format!("new_storage_per_byte*{grow}"), fixed_cost(self.costs, "new_storage_per_byte").map(|p| p.saturating_mul(grow)));
+        let per = fixed_cost(self.costs, "new_storage_per_byte");
+        sp.push(format!("new_storage_per_byte[{}]*{grow}(old {old})", per.unwrap_or(0)), per.map(|p| p.saturating_mul(grow)));
         self.hot.insert(*k, Some(new_len as usize));
     }
     fn clear(&mut self, sp: &mut Spec, c: &ContractId, key: &Bytes32, range: u64) {
-        let cost = dep_cost(self.costs, "storage_clear").and_then(|d| dep_total(&d, range));
-        if !sp.push(format!("storage_clear({range})"), cost) { return; }
+        let d = dep_cost(self.costs, "storage_clear");
+        if !sp.push(format!("storage_clear[{}]({range})", d.as_ref().map(dep_str).unwrap_or_else(|| "undefined".into())), d.and_then(|d| dep_total(&d, range))) { return; }
         for i in 0..range.min(SLOT_CAP) { if let Some(k) = key_add(key, i) { self.hot.insert((*c, k), None); } }
     }
 }
@@ -229,12 +230,13 @@ fn spec_charges(vm: &Vm, costs: &GasCostsValues, hot: &mut Hot, mn: &str, a: &[u
     let mut sp = Spec { charges: vec![], complete: true, cache_mismatch: None, undefined: None };
     let lower = mn.to_lowercase();
     let entry = match mn { "MOD" => "mod_op", "MOVE" => "move_op", "JAL" => "jmp", "CFS" => "cfsi", "LQW" | "LHW" => "lw", "SQW" | "SHW" => "sw", _ => lower.as_str() };
-    let new_entry = |sp: &mut Spec| { sp.push(format!("new_storage_per_byte*{BALANCE_ENTRY_BYTES}"), fixed_cost(costs, "new_storage_per_byte").map(|p| p.saturating_mul(BALANCE_ENTRY_BYTES))); };
+    let new_entry = |sp: &mut Spec| { let per = fixed_cost(costs, "new_storage_per_byte"); sp.push(format!("new_storage_per_byte[{}]*{BALANCE_ENTRY_BYTES}", per.unwrap_or(0)), per.map(|p| p.saturating_mul(BALANCE_ENTRY_BYTES))); };
     // base of a dependent entry first, the unit-dependent part once the size is known
     let base_then = |sp: &mut Spec, units: Option<u64>| {
         let d = dep_cost(costs, entry);
-        if !sp.push(format!("{entry}.base"), d.as_ref().map(dep_base)) { return; }
-        match units { Some(u) => { sp.push(format!("{entry}.units({u})"), d.and_then(|d| dep_units(&d, u))); } None => sp.complete = false }
+        let tag = d.as_ref().map(dep_str).unwrap_or_else(|| "undefined".into());
+        if !sp.push(format!("{entry}[{tag}].base"), d.as_ref().map(dep_base)) { return; }
+        match units { Some(u) => { sp.push(format!("{entry}[{tag}].units({u})"), d.and_then(|d| dep_units(&d, u))); } None => sp.complete = false }
     };
     match mn {
         "ECAL" | "?" => return None,
@@ -301,7 +303,8 @@ fn spec_charges(vm: &Vm, costs: &GasCostsValues, hot: &mut Hot, mn: &str, a: &[u
                 let unit = match mn { "RETD" | "MCL" | "MCLI" => 1, "SMO" | "MCP" | "MCPI" | "K256" | "S256" | "EPAR" => 2, "ALOC" | "CFEI" | "CFE" => 0, "MEQ" | "LOGD" | "ED19" => 3, _ => return None };
                 let mut units = *a.get(unit)?;
                 if mn == "ED19" && units == 0 { units = 32; }
-                sp.push(format!("{entry}({units})"), dep_cost(costs, entry).and_then(|d| dep_total(&d, units)));
+                let d = dep_cost(costs, entry);
+                sp.push(format!("{entry}[{}]({units})", d.as_ref().map(dep_str).unwrap_or_else(|| "undefined".into())), d.and_then(|d| dep_total(&d, units)));
             } else { return None; }
         }
     }
@@ -432,7 +435,7 @@ fn run_case(ctx: &mut Ctx, scn: &Scn, sched_name: &str, tag: &str) -> Option<u64
             ctx.count("oracle.schedule-checked");
             ctx.count(&format!("oracle.charges-{}", sp.charges.len().min(9)));
             if sp.charges.len() >= 2 { ctx.count(&format!("oracle.multi.{}", s.mn)); }
-            for (w, _) in &sp.charges { if w.starts_with("storage_read_") || w.starts_with("storage_write") || w.starts_with("storage_clear") || w.starts_with("new_storage") { ctx.count(&format!("oracle.micro.{}", w.split(|c| c == '(' || c == '*').next().unwrap())); } }
+            for (w, _) in &sp.charges { if w.starts_with("storage_read_") || w.starts_with("storage_write") || w.starts_with("storage_clear") || w.starts_with("new_storage") { ctx.count(&format!("oracle.micro.{}", w.split(|c| c == '(' || c == '*' || c == '[').next().unwrap())); } }
         }
         let mut key = s.mn.as_bytes().to_vec(); key.extend_from_slice(&used.to_be_bytes()); key.push(s.saved_b.len() as u8); key.push(oog as u8);
         ctx.distinct(&key);
